@@ -6,6 +6,8 @@ import (
 
 	"go.nanomsg.org/mangos/v3"
 	"go.nanomsg.org/mangos/v3/internal/core"
+	"go.nanomsg.org/mangos/v3/protocol"
+	"go.nanomsg.org/mangos/v3/protocol/xbus"
 	"go.nanomsg.org/mangos/v3/zzverif/verif"
 	"go.nanomsg.org/mangos/v3/zzverif/vp"
 	"go.nanomsg.org/mangos/v3/zzverif/vt"
@@ -358,4 +360,96 @@ func VH10b_scoped() {
 	}
 	verif.Assert(verif.LiveGoroutines() == 0, lab+"/goroutines-left-after-close")
 	verif.Assert(core.ZZIDsInUse() == 0, lab+"/pipe-ids-left-after-close")
+}
+
+// slowClose wraps a real protocol: Close announces itself and then waits for
+// the harness before it lets the real Close run. That opens, deterministically,
+// every window inside core socket.Close in which a connection attempt that
+// was in flight can complete.
+type slowClose struct {
+	protocol.Protocol
+	atGate chan struct{}
+	gate   chan struct{}
+}
+
+func (s *slowClose) Close() error {
+	close(s.atGate)
+	<-s.gate
+	return s.Protocol.Close()
+}
+
+// VH10c_close_window: a dial (or an accept) is in flight when Close starts and
+// completes while Close is somewhere in the middle (the protocol's Close is
+// slow): the late connection is either refused or attached-and-then-closed,
+// never left behind: after Close returned every connection is closed, every
+// pipe id released, no goroutine remains.
+func VH10c_close_window() {
+	lab := "C10/close-window"
+	vt.Install()
+	sc := &slowClose{Protocol: xbus.NewProtocol(), atGate: make(chan struct{}), gate: make(chan struct{})}
+	sock := protocol.MakeSocket(sc)
+	attached, detached := 0, 0
+	sock.SetPipeEventHook(func(ev mangos.PipeEvent, p mangos.Pipe) {
+		switch ev {
+		case mangos.PipeEventAttached:
+			attached++
+		case mangos.PipeEventDetached:
+			detached++
+		}
+	})
+	side := verif.Choice("side", 2)
+	var late *vt.Pipe
+	hold := make(chan struct{})
+	var l *vt.Listener
+	if side == 0 {
+		// a dial whose transport-level connect is still in progress
+		verif.Assert(sock.SetOption(mangos.OptionDialAsynch, true) == nil, lab+"/asynch")
+		d, err := sock.NewDialer("vt://slow-peer", nil)
+		verif.Assert(err == nil, lab+"/new-dialer")
+		vd := vt.T.Dialers[len(vt.T.Dialers)-1]
+		vd.Outcome = func(n int) (*vt.Pipe, error) {
+			if n > 0 {
+				return nil, mangos.ErrConnRefused
+			}
+			<-hold
+			late = vt.NewPipe(vt.T, "late")
+			return late, nil
+		}
+		verif.Assert(d.Dial() == nil, lab+"/dial")
+	} else {
+		verif.Assert(sock.Listen("vt://lw") == nil, lab+"/listen")
+		l = vt.T.Listeners["lw"]
+	}
+	verif.Quiesce()
+	established := vt.NewPipe(vt.T, "unused")
+	_ = established
+	cg := verif.Go("close", func() { sock.Close() })
+	verif.Quiesce()
+	select {
+	case <-sc.atGate:
+		verif.Reach("close-waiting-in-protocol")
+	default:
+		// the protocol is closed last or not reached yet: nothing to hold, go on
+	}
+	// the in-flight connection completes now
+	if side == 0 {
+		close(hold)
+	} else if !l.Closed {
+		late = l.Connect("late")
+	}
+	verif.Quiesce()
+	close(sc.gate)
+	verif.Quiesce()
+	for i := 0; i < 4; i++ {
+		verif.FireTimer()
+	}
+	verif.Assert(cg.Done(), lab+"/close-does-not-return")
+	if late != nil {
+		verif.Assert(late.Closed, lab+"/connection-completed-during-close-left-open")
+		verif.Reach("late-connection")
+	}
+	verif.Assert(attached == detached, lab+"/attached-pipe-never-detached")
+	verif.Assert(core.ZZIDsInUse() == 0, lab+"/pipe-ids-left-after-close")
+	verif.Assert(core.ZZSocketPipes(sock) == 0, lab+"/socket-still-tracks-pipes")
+	verif.Assert(verif.LiveGoroutines() == 0, lab+"/goroutines-left-after-close")
 }
